@@ -8,7 +8,7 @@ BOUNDS = {
     "quick": {"block_types": "all registered (from Factory.cpp)", "version": "symbolic (file,user,stream) under the loader's acceptance predicate", "count_cap_B": 1, "input_bytes_L": 256, "budget_s_per_type": 8},
     "thorough": {"block_types": "all registered", "version": "symbolic, split into 3 version classes", "count_cap_B": 2, "input_bytes_L": 512, "budget_s_per_type": 120},
 }
-ASSUMPTIONS = ['the completed block is produced by the library itself (Get of arbitrary bytes then Put), so every prefix is a prefix of a file the library writes', 'faults in the first (untruncated) Get are unloadable inputs']
+ASSUMPTIONS = ['the completed block is produced by the library itself (Get of arbitrary bytes then Put), so every prefix is a prefix of a file the library writes', 'faults in the first (untruncated) Get are unloadable inputs', 'file level: the Miniball bounding-sphere computation (BoundingSphere(vector) constructor) is replaced by a stub returning an arbitrary sphere, because its floating-point control flow over truncation-dependent vertex values is beyond the solver budget; all other float code on truncated data (normal/weight conversions) runs IEEE-exact in z3 FP']
 LEVEL_TEXT = "Bounded symbolic model checking: block level - a complete block is loaded from symbolic bytes, written, and re-read through a stream with a *symbolic truncation point* T (byte i arrives iff i < T, exactly istream::read's partial-read behaviour), then enumerated, written, cloned and destroyed; file level - whole files with symbolic T. Oracle = engine built-ins (memory faults, division by zero, unbounded recursion, hang, huge allocation, exception)."
 LEVEL_NOTE = 'Bounds as in evidence; operator new never fails except that requests > 16 MB are reported as huge-allocation and confirmed natively.'
 AIDS = ("C01-",)
@@ -28,9 +28,9 @@ def jobs(tier, seed):
         # truncation points of each file are split into 6 ranges explored by parallel jobs
         for ver, feat in ((fmfile.SSE, fmfile.SKIN), (fmfile.FO4, fmfile.EXTRA | fmfile.SEGMENTS | fmfile.SKIN), (fmfile.OB, fmfile.SKIN | fmfile.COLL)):
             for seg in range(5):
-                F.append(dict(entry="h_file_trunc", args=[ver, feat, 1, seg, 5], budget=90, mod="fmfile", huge_alloc_is_violation=True, throw_is_violation=True))
+                F.append(dict(entry="h_file_trunc", args=[ver, feat, 1, seg, 5], budget=90, mod="fmfile", huge_alloc_is_violation=True, throw_is_violation=True, stubs=["bsphere"]))
     else:
-        for j in fmfile.jobs("h_file_trunc", tier, extra_args=[1, 0, 1], budget=1200, huge_alloc_is_violation=True, throw_is_violation=True):
+        for j in fmfile.jobs("h_file_trunc", tier, extra_args=[1, 0, 1], budget=1200, huge_alloc_is_violation=True, throw_is_violation=True, stubs=["bsphere"]):
             for seg in range(8):
                 k = dict(j)
                 k["args"] = j["args"][:3] + [seg, 8]
